@@ -344,6 +344,39 @@ fn exec_op(
             all.sort();
             json!({"ok": all})
         }
+        "nu_eval" => {
+            // the nushell access path: the store commands (.cat .head .get .cas .remove .append) bound to one context,
+            // as handlers and commands see them
+            use xs::nu::commands::*;
+            let ctx = parse_id(&req["ctx"]).unwrap_or(xs::store::ZERO_CONTEXT);
+            let expr = req["expr"].as_str().unwrap_or("").to_string();
+            static ENGINE: std::sync::OnceLock<Result<xs::nu::Engine, String>> = std::sync::OnceLock::new();
+            let base = match ENGINE.get_or_init(|| xs::nu::Engine::new().map_err(|e| e.to_string())) {
+                Ok(e) => e.clone(),
+                Err(e) => return json!({"harness_error": format!("nu engine: {}", e)}),
+            };
+            let mut engine = base;
+            if let Err(e) = engine.add_commands(vec![
+                Box::new(cat_command::CatCommand::new(store.clone(), ctx)),
+                Box::new(head_command::HeadCommand::new(store.clone(), ctx)),
+                Box::new(get_command::GetCommand::new(store.clone())),
+                Box::new(cas_command::CasCommand::new(store.clone())),
+                Box::new(remove_command::RemoveCommand::new(store.clone())),
+                Box::new(append_command::AppendCommand::new(store.clone(), ctx, json!({}))),
+            ]) {
+                return json!({"harness_error": format!("nu commands: {}", e)});
+            }
+            match engine.eval(nu_protocol::PipelineData::empty(), expr) {
+                Ok(pd) => match pd.into_value(nu_protocol::Span::unknown()) {
+                    Ok(v) => match v {
+                        nu_protocol::Value::Error { error, .. } => json!({"err": error.to_string()}),
+                        v => json!({"value": xs::nu::value_to_json(&v)}),
+                    },
+                    Err(e) => json!({"err": e.to_string()}),
+                },
+                Err(e) => json!({"err": e.to_string()}),
+            }
+        }
         "append_nested" => {
             // meta nested `depth` levels, built here because the transport itself is JSON
             let depth = req["depth"].as_u64().unwrap_or(0) as usize;
